@@ -101,8 +101,13 @@ func parseConf(t reflect.Type, data interface{}) (name string, fillConf func(con
 }
 
 func toStringKeyMap(data interface{}) (out map[string]interface{}, err error) {
-	out, ok := data.(map[string]interface{})
-	if ok {
+	if strKeyData, ok := data.(map[string]interface{}); ok {
+		// Copy: parseConf removes the plugin type key, and the caller's map can be decoded again
+		// (a factory made from a plugin constructor decodes its config for every created plugin).
+		out = make(map[string]interface{}, len(strKeyData))
+		for key, val := range strKeyData {
+			out[key] = val
+		}
 		return
 	}
 	untypedKeyData, ok := data.(map[interface{}]interface{})
